@@ -233,12 +233,30 @@ def install_stubs():
     pv.pkgutil = _Pkgutil
 
 
-def revocation_yaml(hexes):
+def hex_form(h, rng):
+    """One of the spellings of the same bytes that a revocation list may use (all accepted by
+    bytearray.fromhex): lower, UPPER, MiXeD case, byte pairs separated by blanks."""
+    form = rng.choice(["lower", "upper", "mixed", "spaced", "spaced-upper"])
+    if form in ("upper", "spaced-upper"):
+        h = h.upper()
+    elif form == "mixed":
+        h = "".join(c.upper() if rng.random() < 0.5 else c for c in h)
+        if h == h.lower():
+            h = h.upper()
+    if form.startswith("spaced"):
+        h = " ".join(h[i:i + 2] for i in range(0, len(h), 2))
+    return h
+
+
+def revocation_yaml(hexes, rng):
     lines = ["- name: revocation list", "  timestamp: 1", "  vars:",
              "    insights_signature_exclude: /vars/insights_signature", "    insights_signature: aaaa",
              "  revoked_playbooks:"]
     for i, h in enumerate(hexes):
-        lines += ["    - name: r%d" % i, "      hash: %s" % h]
+        shown = hex_form(h, rng)
+        if bytes(bytearray.fromhex(shown)) != binascii.unhexlify(h):
+            raise RuntimeError("R4: rendered revocation entry does not denote the digest")
+        lines += ["    - name: r%d" % i, '      hash: "%s"' % shown]
     if not hexes:
         lines[-1] = "  revoked_playbooks: []"
     return ("\n".join(lines) + "\n").encode("ascii")
@@ -276,7 +294,7 @@ def outcome(fn):
         return "crash:" + type(ex).__name__, None
 
 
-def observe(node, how, via, revoked=()):
+def observe(node, how, via, revoked=(), rng=None):
     play = build(node, how)
     if abstract(play) != node:
         raise RuntimeError("R4: built object does not project back to the abstract play")
@@ -295,7 +313,7 @@ def observe(node, how, via, revoked=()):
             if not res[0] or bytes(res[1]) != FakeGPG.seen[0]:
                 out = "crash:ReturnedHashDiffers"
     else:
-        _Pkgutil.revocation = revocation_yaml(revoked)
+        _Pkgutil.revocation = revocation_yaml(revoked, rng)
         out, res = outcome(lambda: pv.verify(play))
         if len(FakeGPG.seen) == 2:      # [revocation list itself, the play]
             ev["digest"] = hexd(FakeGPG.seen[1])
@@ -382,8 +400,9 @@ def rbase(rng):
         if rng.random() < 0.4 and "/" not in k and "," not in k:
             reqs.append("/vars/" + k)
     r = rng.random()
-    if r < 0.06:
-        reqs.append(rng.choice(["/tasks", "/name", "/vars/zz", "/hosts/zz", "/vars/c/d", "/become", "", "/become/a", "/a/c"]))
+    if r < 0.10:
+        reqs.append(rng.choice(["/tasks", "/name", "/vars/zz", "/hosts/zz", "/vars/c/d", "/become", "", "/become/a", "/a/c", "/vars_files", "/vars_prompt", "/hostsfile", "/vars_files/a", "/varsx", "/host",
+                               "vars_files", "/varsx/a"]))
     rng.shuffle(reqs)
     vars_ents = [("insights_signature_exclude", ("str", ",".join(reqs)))]
     if rng.random() < 0.95:
@@ -396,7 +415,7 @@ def rbase(rng):
         ents.append(("vars", ("map", vars_ents)))
     ents.append(("tasks", ("seq", [rtree(rng, 3) for _ in range(rng.randint(1, 2))])))
     for _ in range(rng.randint(0, 2)):
-        k = rng.choice(["become", "a", "x'", 7])
+        k = rng.choice(["become", "a", "x'", 7, "vars_files", "vars_prompt", "hostsfile", "host", "varsx"])
         if k not in [e[0] for e in ents]:
             ents.append((k, rtree(rng, 2)))
     return ("map", ents)
@@ -570,6 +589,7 @@ def main():
                 nodes.append(nd)
                 origin.append("random/%d/%d/%d" % (rnd["seed"], b, j))
     every = inp.get("verify_every", 0)
+    frng = random.Random(inp.get("seed", 0))      # spelling of the revocation entries
     events = []
     digests = []          # digests seen so far (material for synthetic revocation lists)
     nyaml = 0
@@ -594,7 +614,7 @@ def main():
             if own:
                 lists += [[own], other + [own]]
             for j, rev in enumerate(lists):
-                ev = observe(nd, builds[(i // every + j) % len(builds)], "verify", rev)
+                ev = observe(nd, builds[(i // every + j) % len(builds)], "verify", rev, frng)
                 ev["p"] = i + 1
                 events.append(ev)
     with open(sys.argv[2], "w") as f:
